@@ -14,7 +14,8 @@ def extra_programs(ctx):
         leaf = {"kind": "struct", "name": f"Lf{i}", "shape": "named", "attrs": {}, "generics": [], "fields": [{"name": "v", "ty": P("u16"), "attrs": {}}]}
         inner = {"kind": "struct", "name": f"In{i}", "shape": "named", "attrs": {}, "generics": [{"name": "X"}],
                  "fields": [{"name": "x", "ty": PARAM("X"), "attrs": {}}, {"name": "n", "ty": P("u8"), "attrs": {}}]}
-        ps = [["T"], ["A", "B"], ["T", "U", "V"]][i % 3]
+        # parameter names in and out of alphabetical order (the order of declaration is what counts)
+        ps = [["T"], ["A", "B"], ["T", "U", "V"], ["T", "E"], ["V", "K"], ["Z", "M", "A"]][i % 6]
         gens = [{"name": p} for p in ps]
         if i % 4 == 1:
             gens[-1]["default"] = rng.choice([P("u8"), N(leaf["name"]), VEC(P("String"))])
